@@ -121,6 +121,13 @@ let handle cmd =
   | "col" -> let a = next_pt () in let b = next_pt () in let c = next_pt () in b2s (isCollinear a b c)
   | "cross" -> let a = next_pt () in let b = next_pt () in let c = next_pt () in string_of_z (crossProduct a b c)
   | "noop" -> "OK"
+  | "simp64" -> let eps = next_q () in let c = next_int () = 1 in let p = next_path () in
+    (match simplifyPath64_model eps p c with None -> "NONE" | Some r -> str_path r)
+  | "simpD" -> let eps = next_q () in let c = next_int () = 1 in
+    let p = next_list (fun () -> let x = next_q () in let y = next_q () in (x, y)) in
+    (match simplifyPathD_model eps p c with None -> "NONE"
+     | Some r -> String.concat " " (string_of_int (List.length r) :: List.map (fun (x, y) -> string_of_q (qred x) ^ " " ^ string_of_q (qred y)) r))
+  | "perp64" -> let a = next_pt () in let b = next_pt () in let c = next_pt () in string_of_q (qred (perp_f64 a b c))
   | "area" -> let p = next_path () in
     string_of_z (area64_twice p) ^ " " ^ b2s (isPositive64_model p) ^ " " ^ string_of_z (shoelace2 p)
   | "bounds" -> let p = next_path () in
